@@ -43,7 +43,8 @@ class Insert(ASTNode):
     def to_value(self, val):
         if isinstance(val, ASTNode) :
             return val.to_string()
-        return repr(val)
+        # a plain python value (is_plain rows) is written like the constant it stands for, not by repr()
+        return Constant(val).to_string()
 
     def to_tree(self, *args, level=0, **kwargs):
         ind = indent(level)
